@@ -367,6 +367,13 @@ def rule_R14_4(ctx):
     return r
 
 
+def _always_after(f, a, b):
+    """Every path from block a to a return passes through block b."""
+    rets = [x for x in range(len(f.blocks)) if f.term(x)["k"] == "return"]
+    reach = f.reach_from(a, avoid=(b,))
+    return not any(x in reach for x in rets)
+
+
 def rule_R14_6(ctx):
     prog = ctx.prog
     r = RuleResult("R14.6", "a stored value and its `this` source are replaced "
@@ -402,12 +409,20 @@ def rule_R14_6(ctx):
                         whole += 1
                     continue
                 # (both halves written one after the other is a whole-slot store)
-                both = set()
+                # ... on the same paths: the store of the other half sits in a
+                # block that dominates this one or that every path from this
+                # one passes through (a conditional store of the other half
+                # keeps the previous occupant's half on the other branch)
+                both = {tys[-1][3]}
                 for b2 in range(len(f.blocks)):
+                    if f.is_cleanup(b2):
+                        continue
                     for s2 in f.stmts(b2):
                         if s2[0] == "=" and s2[1][0] == pl[0]:
                             for p2 in s2[1][1]:
-                                if p2 != "*" and p2[0] == "f" and len(p2) > 4 and p2[4] == SV:
+                                if p2 != "*" and p2[0] == "f" and len(p2) > 4 and p2[4] == SV \
+                                        and p2[3] != tys[-1][3] \
+                                        and (b2 == bb or f.dominates(b2, bb) or _always_after(f, bb, b2)):
                                     both.add(p2[3])
                 if {"v", "source"} <= both:
                     whole += 1
